@@ -12,6 +12,7 @@ import PyodaModel.Text.Buckets
 import PyodaModel.Text.Delimited
 import PyodaProofs.TextIsoLemmas
 import PyodaProofs.C07
+import PyodaProofs.C07Text
 
 namespace Pyoda.C07
 open Pyoda Pyoda.Text
@@ -190,7 +191,7 @@ theorem truncOut_cases (count scale : Nat) (v : Int) (h : FracOK count scale v) 
 def dotOut (v : Int) (count scale : Nat) : Text :=
   if truncOut v count scale = [] then [] else '.' :: truncOut v count scale
 
-def outStep (get : Getter) : Step → Text
+def outStep (cu : Culture) (used : Nat) (get : Getter) : Step → Text
   | .lit s => s
   | .num g _ count _ _ _ => numOut count (get g)
   | .frac count scale fixed =>
@@ -199,23 +200,31 @@ def outStep (get : Getter) : Step → Text
   | .semi => ['.']
   | .signRequired => [if get .sign = 0 then '+' else '-']
   | .signNegativeOnly => if get .sign = 0 then [] else ['-']
-  | _ => []
+  | .amPm count => formatAmPm cu count (get .hours24)
+  | .monthText count => (monthTable cu count (genitiveOf used)).getD (get .monthNum).toNat []
+  | .dayText count => (dayTable cu count).getD (get .dayOfWeek).toNat []
+  | .era => eraPrimary cu (get .era)
+  | .calendar => isoId
 
 /-- the bucket after the step's parse action read back what its format action wrote -/
-def setStep (get : Getter) (b : Bucket) : Step → Bucket
+def setStep (cu : Culture) (get : Getter) (b : Bucket) : Step → Bucket
   | .num g st _ _ _ _ => b.set st (get g)
   | .frac _ _ _ => b.set .fraction (get .fraction)
   | .dotFrac count scale _ =>
     if truncOut (get .fraction) count scale = [] then b else b.set .fraction (get .fraction)
   | .signRequired => b.set .sign (get .sign)
   | .signNegativeOnly => b.set .sign (get .sign)
+  | .amPm _ => b.set .amPm (amPmValue cu (get .hours24))
+  | .monthText _ => b.set .monthText (get .monthNum)
+  | .dayText _ => b.set .dayOfWeek (get .dayOfWeek)
+  | .era => b.set .era (get .era)
   | _ => b
 
 def headIsNot (c : Char) (l : Text) : Prop := l.head? ≠ some c
 
 /-- the conditions under which a step round-trips: the value fits the field (`NumOK`, `FracOK`, sign 0/1) and
     the following text `tail` / the buffer `buf` so far do not interfere -/
-def StepOK (get : Getter) (buf tail : Text) : Step → Prop
+def StepOK (cu : Culture) (used : Nat) (get : Getter) (buf tail : Text) : Step → Prop
   | .lit _ => True
   | .num g _ count maxCount minV maxV =>
     NumOK count maxCount minV maxV (get g) ∧ (count = maxCount ∨ NoDigitHead tail)
@@ -228,7 +237,15 @@ def StepOK (get : Getter) (buf tail : Text) : Step → Prop
   | .semi => True
   | .signRequired => get .sign = 0 ∨ get .sign = 1
   | .signNegativeOnly => (get .sign = 0 ∨ get .sign = 1) ∧ (get .sign = 0 → headIsNot '-' tail ∧ headIsNot '+' tail)
-  | _ => False
+  | .amPm count =>
+    (0 ≤ get .hours24 ∧ get .hours24 ≤ 23) ∧ amPmOK cu count = true ∧ tailSafe (amPmDanger cu count) tail = true
+  | .monthText count =>
+    (1 ≤ get .monthNum ∧ get .monthNum ≤ 12) ∧ monthNamesOK cu count (genitiveOf used) = true ∧
+      tailSafe (monthDanger cu count (genitiveOf used)) tail = true
+  | .dayText count =>
+    (1 ≤ get .dayOfWeek ∧ get .dayOfWeek ≤ 7) ∧ dayNamesOK cu count = true ∧ tailSafe (dayDanger cu count) tail = true
+  | .era => (get .era = 0 ∨ get .era = 1) ∧ eraOK cu = true ∧ tailSafe (eraDanger cu) tail = true
+  | .calendar => True
 
 theorem matchChar_none_of_head (c : Char) (l : Text) (h : headIsNot c l) : matchChar c l = none := by
   unfold matchChar
@@ -261,9 +278,9 @@ theorem matchDotOrComma_none (comma : Bool) (l : Text) (h1 : headIsNot '.' l) (h
 /-- **one step**: its format action appends `outStep`, and its parse action reads that text back, leaving the
     following text and setting the step's slot to what the accessor returned -/
 theorem step_roundtrip (cu : Culture) (used : Nat) (get : Getter) (b : Bucket) (buf tail : Text) (s : Step)
-    (h : StepOK get buf tail s) :
-    formatStep cu used get buf s = .ok (buf ++ outStep get s) ∧
-    parseStep cu (outStep get s ++ tail) b s = .ok (some (setStep get b s, tail)) := by
+    (h : StepOK cu used get buf tail s) :
+    formatStep cu used get buf s = .ok (buf ++ outStep cu used get s) ∧
+    parseStep cu (outStep cu used get s ++ tail) b s = .ok (some (setStep cu get b s, tail)) := by
   cases s with
   | lit t =>
     simp only [formatStep, parseStep, outStep, setStep, matchText_append, and_self]
@@ -320,41 +337,63 @@ theorem step_roundtrip (cu : Culture) (used : Nat) (get : Getter) (b : Bucket) (
         matchChar_none_of_head '-' tail h1, matchChar_none_of_head '+' tail h2, and_self]
     · have : ¬ ((1 : Int) = 0) := by decide
       simp only [formatStep, parseStep, outStep, setStep, h, this, if_false, List.cons_append, List.nil_append, matchChar_self, and_self]
-  | amPm _ => exact h.elim
-  | monthText _ => exact h.elim
-  | dayText _ => exact h.elim
-  | era => exact h.elim
-  | calendar => exact h.elim
+  | amPm count =>
+    obtain ⟨⟨h0, h1⟩, hok, hs⟩ := h
+    exact amPm_roundtrip cu used get b buf tail count h0 h1 hok hs
+  | monthText count =>
+    obtain ⟨⟨h1, h2⟩, hok, hs⟩ := h
+    obtain ⟨K, hK⟩ : ∃ K : Nat, get .monthNum = (K : Int) := ⟨(get .monthNum).toNat, by omega⟩
+    obtain ⟨a, ha, hn⟩ := monthNamesOK_at cu count (genitiveOf used) hok K (by omega) (by omega)
+    have hd := monthDanger_at cu count (genitiveOf used) K (by omega) (by omega) a ha
+    have hs' := tailSafe_subset _ _ tail hd hs
+    have ho : outStep cu used get (.monthText count) = a := by
+      simp only [outStep, hK, Int.toNat_natCast, List.getD, ha, Option.getD_some]
+    rw [ho, setStep, hK]
+    exact monthText_roundtrip cu used get b buf tail count K a hK ha hn hs'
+  | dayText count =>
+    obtain ⟨⟨h1, h2⟩, hok, hs⟩ := h
+    obtain ⟨K, hK⟩ : ∃ K : Nat, get .dayOfWeek = (K : Int) := ⟨(get .dayOfWeek).toNat, by omega⟩
+    obtain ⟨a, ha, hn⟩ := dayNamesOK_at cu count hok K (by omega) (by omega)
+    have hd := dayDanger_at cu count K (by omega) (by omega) a ha
+    have hs' := tailSafe_subset _ _ tail hd hs
+    have ho : outStep cu used get (.dayText count) = a := by
+      simp only [outStep, hK, Int.toNat_natCast, List.getD, ha, Option.getD_some]
+    rw [ho, setStep, hK]
+    exact dayText_roundtrip cu used get b buf tail count K a hK ha hn hs'
+  | era =>
+    obtain ⟨he, hok, hs⟩ := h
+    exact era_roundtrip cu used get b buf tail he hok hs
+  | calendar => exact calendar_roundtrip cu used get b buf tail
 
 /-! ## a list of steps -/
 
-def outSteps (get : Getter) : List Step → Text
+def outSteps (cu : Culture) (used : Nat) (get : Getter) : List Step → Text
   | [] => []
-  | s :: ss => outStep get s ++ outSteps get ss
+  | s :: ss => outStep cu used get s ++ outSteps cu used get ss
 
 /-- `project`: the bucket after all parse actions — every slot a step sets holds what the accessor returned -/
-def setSteps (get : Getter) (b : Bucket) : List Step → Bucket
+def setSteps (cu : Culture) (get : Getter) (b : Bucket) : List Step → Bucket
   | [] => b
-  | s :: ss => setSteps get (setStep get b s) ss
+  | s :: ss => setSteps cu get (setStep cu get b s) ss
 
 /-- the per-step conditions along the list: each step against the text the following steps write -/
-def StepsOK (get : Getter) : Text → List Step → Text → Prop
+def StepsOK (cu : Culture) (used : Nat) (get : Getter) : Text → List Step → Text → Prop
   | _, [], _ => True
-  | buf, s :: ss, rest => StepOK get buf (outSteps get ss ++ rest) s ∧ StepsOK get (buf ++ outStep get s) ss rest
+  | buf, s :: ss, rest => StepOK cu used get buf (outSteps cu used get ss ++ rest) s ∧ StepsOK cu used get (buf ++ outStep cu used get s) ss rest
 
 /-- composition: the format actions write `outSteps`, the parse actions read it back, slot by slot -/
 theorem steps_roundtrip (cu : Culture) (used : Nat) (get : Getter) : ∀ (ss : List Step) (buf rest : Text) (b : Bucket),
-    StepsOK get buf ss rest →
-    formatSteps cu used get ss buf = .ok (buf ++ outSteps get ss) ∧
-    parseSteps cu ss (outSteps get ss ++ rest) b = .ok (some (setSteps get b ss, rest)) := by
+    StepsOK cu used get buf ss rest →
+    formatSteps cu used get ss buf = .ok (buf ++ outSteps cu used get ss) ∧
+    parseSteps cu ss (outSteps cu used get ss ++ rest) b = .ok (some (setSteps cu get b ss, rest)) := by
   intro ss
   induction ss with
   | nil => intro buf rest b _; simp [formatSteps, parseSteps, outSteps, setSteps]
   | cons s ss ih =>
     intro buf rest b h
     obtain ⟨h1, h2⟩ := h
-    obtain ⟨f1, p1⟩ := step_roundtrip cu used get b buf (outSteps get ss ++ rest) s h1
-    obtain ⟨f2, p2⟩ := ih (buf ++ outStep get s) rest (setStep get b s) h2
+    obtain ⟨f1, p1⟩ := step_roundtrip cu used get b buf (outSteps cu used get ss ++ rest) s h1
+    obtain ⟨f2, p2⟩ := ih (buf ++ outStep cu used get s) rest (setStep cu get b s) h2
     constructor
     · simp only [formatSteps, f1, f2, outSteps, List.append_assoc]
     · simp only [parseSteps, outSteps, List.append_assoc, p1, p2, setSteps]
@@ -370,7 +409,11 @@ def ValOK (get : Getter) : Step → Prop
   | .dotFrac count scale _ => FracOK count scale (get .fraction)
   | .signRequired => get .sign = 0 ∨ get .sign = 1
   | .signNegativeOnly => get .sign = 0 ∨ get .sign = 1
-  | _ => False
+  | .amPm _ => 0 ≤ get .hours24 ∧ get .hours24 ≤ 23
+  | .monthText _ => 1 ≤ get .monthNum ∧ get .monthNum ≤ 12
+  | .dayText _ => 1 ≤ get .dayOfWeek ∧ get .dayOfWeek ≤ 7
+  | .era => get .era = 0 ∨ get .era = 1
+  | .calendar => True
 
 theorem digitChar_ne_dot (d : Nat) : digitChar d ≠ '.' := by
   unfold digitChar
@@ -407,8 +450,8 @@ theorem numOut_last (count : Nat) (v : Int) : ∃ d, (numOut count v).getLast? =
 def NoDotEnd (l : Text) : Prop := l.getLast? ≠ some '.'
 
 /-- the buffer invariant behind `lastSafe` -/
-theorem lastSafe_sound (get : Getter) (safe : Bool) (buf : Text) (s : Step) (hv : ValOK get s)
-    (hb : safe = true → NoDotEnd buf) (hs : lastSafe safe s = true) : NoDotEnd (buf ++ outStep get s) := by
+theorem lastSafe_sound (cu : Culture) (used : Nat) (get : Getter) (safe : Bool) (buf : Text) (s : Step) (hv : ValOK get s)
+    (hb : safe = true → NoDotEnd buf) (hs : lastSafe safe s = true) : NoDotEnd (buf ++ outStep cu used get s) := by
   unfold NoDotEnd
   cases s with
   | lit t =>
@@ -455,13 +498,13 @@ theorem lastSafe_sound (get : Getter) (safe : Bool) (buf : Text) (s : Step) (hv 
   | calendar => simp [lastSafe] at hs
 
 /-- what `follow` promises about the text the following steps write -/
-theorem follow_sound (get : Getter) (ss : List Step) (hv : ∀ s ∈ ss, ValOK get s) :
+theorem follow_sound (cu : Culture) (used : Nat) (get : Getter) (ss : List Step) (hv : ∀ s ∈ ss, ValOK get s) :
     match follow ss with
-    | .stop => outSteps get ss = []
-    | .char c => (outSteps get ss).head? = some c
-    | .digit => ∃ d, (outSteps get ss).head? = some d ∧ isDigit d = true
-    | .dotOr none => outSteps get ss = [] ∨ (outSteps get ss).head? = some '.'
-    | .dotOr (some c) => (outSteps get ss).head? = some c ∨ (outSteps get ss).head? = some '.'
+    | .stop => outSteps cu used get ss = []
+    | .char c => (outSteps cu used get ss).head? = some c
+    | .digit => ∃ d, (outSteps cu used get ss).head? = some d ∧ isDigit d = true
+    | .dotOr none => outSteps cu used get ss = [] ∨ (outSteps cu used get ss).head? = some '.'
+    | .dotOr (some c) => (outSteps cu used get ss).head? = some c ∨ (outSteps cu used get ss).head? = some '.'
     | .unknown => True := by
   cases ss with
   | nil => simp [follow, outSteps]
@@ -477,7 +520,7 @@ theorem follow_sound (get : Getter) (ss : List Step) (hv : ∀ s ∈ ss, ValOK g
       · simp only [follow, hm, if_true]
         have hn : NumOK count maxCount minV maxV (get g) := hv (.num g st count maxCount minV maxV) (by simp)
         have hv0 : get g ≥ 0 := by have := hn.lo; omega
-        obtain ⟨c, l, e, hc⟩ := leftPad_head_digit (get g).toNat count (outSteps get ss) hn.c1
+        obtain ⟨c, l, e, hc⟩ := leftPad_head_digit (get g).toNat count (outSteps cu used get ss) hn.c1
         refine ⟨c, ?_, hc⟩
         simp only [outSteps, outStep, numOut, if_pos hv0, e, List.head?_cons]
       · simp only [follow, hm, if_false]
@@ -515,9 +558,9 @@ theorem follow_sound (get : Getter) (ss : List Step) (hv : ∀ s ∈ ss, ValOK g
 
 theorem isDigit_dot : isDigit '.' = false := by decide
 
-theorem nonDigit_sound (get : Getter) (ss : List Step) (hv : ∀ s ∈ ss, ValOK get s)
-    (h : (follow ss).nonDigit = true) : NoDigitHead (outSteps get ss ++ []) := by
-  have hs := follow_sound get ss hv
+theorem nonDigit_sound (cu : Culture) (used : Nat) (get : Getter) (ss : List Step) (hv : ∀ s ∈ ss, ValOK get s)
+    (h : (follow ss).nonDigit = true) : NoDigitHead (outSteps cu used get ss ++ []) := by
+  have hs := follow_sound cu used get ss hv
   rw [List.append_nil]
   cases hf : follow ss with
   | stop => rw [hf] at hs; dsimp only at hs; rw [hs]; exact noDigitHead_nil
@@ -542,9 +585,9 @@ theorem nonDigit_sound (get : Getter) (ss : List Step) (hv : ∀ s ∈ ss, ValOK
       · intro d hd; rw [e] at hd; injection hd with hd; rw [← hd]; exact isDigit_dot
   | unknown => rw [hf] at h; simp [Follow.nonDigit] at h
 
-theorem notChar_sound (get : Getter) (ss : List Step) (hv : ∀ s ∈ ss, ValOK get s) (x : Char)
-    (h : (follow ss).notChar x = true) : headIsNot x (outSteps get ss ++ []) := by
-  have hs := follow_sound get ss hv
+theorem notChar_sound (cu : Culture) (used : Nat) (get : Getter) (ss : List Step) (hv : ∀ s ∈ ss, ValOK get s) (x : Char)
+    (h : (follow ss).notChar x = true) : headIsNot x (outSteps cu used get ss ++ []) := by
+  have hs := follow_sound cu used get ss hv
   rw [List.append_nil]
   unfold headIsNot
   cases hf : follow ss with
@@ -575,9 +618,70 @@ theorem notChar_sound (get : Getter) (ss : List Step) (hv : ∀ s ∈ ss, ValOK 
       · rw [e]; intro e'; injection e' with e'; exact h.1 e'.symm
   | unknown => rw [hf] at h; simp [Follow.notChar] at h
 
+theorem asciiLower_digit (d : Char) (h : isDigit d = true) : asciiLower d = d := by
+  unfold isDigit at h
+  simp only [Bool.and_eq_true, decide_eq_true_eq] at h
+  unfold asciiLower
+  rw [if_neg (by omega)]
+
+theorem tailSafe_single_cons (x y : Char) (tl : Text) : tailSafe [x] (y :: tl) = decide (asciiLower y ≠ x) := by
+  simp only [tailSafe, List.contains_eq_mem, List.mem_singleton]
+  by_cases h : asciiLower y = x <;> simp [h]
+
+/-- what `Follow.notCharCI` promises: the text the following steps write does not start with `x` up to case -/
+theorem notCharCI_sound (cu : Culture) (used : Nat) (get : Getter) (ss : List Step) (hv : ∀ s ∈ ss, ValOK get s) (x : Char)
+    (h : (follow ss).notCharCI x = true) : tailSafe [x] (outSteps cu used get ss ++ []) = true := by
+  have hs := follow_sound cu used get ss hv
+  rw [List.append_nil]
+  have key : ∀ (c : Char), (outSteps cu used get ss).head? = some c → asciiLower c ≠ x →
+      tailSafe [x] (outSteps cu used get ss) = true := by
+    intro c hc hne
+    cases ho : outSteps cu used get ss with
+    | nil => rfl
+    | cons y tl =>
+      rw [ho] at hc; simp only [List.head?_cons, Option.some.injEq] at hc
+      rw [tailSafe_single_cons, hc]; simpa using hne
+  cases hf : follow ss with
+  | stop => rw [hf] at hs; dsimp only at hs; rw [hs]; rfl
+  | char c =>
+    rw [hf] at hs h; dsimp only at hs
+    simp only [Follow.notCharCI, decide_eq_true_eq] at h
+    exact key c hs h
+  | digit =>
+    rw [hf] at hs h; dsimp only at hs
+    simp only [Follow.notCharCI, Bool.not_eq_true'] at h
+    obtain ⟨d, e, hd⟩ := hs
+    refine key d e ?_
+    rw [asciiLower_digit d hd]
+    intro e'; rw [e'] at hd; rw [hd] at h; cases h
+  | dotOr oc =>
+    rw [hf] at hs h
+    have dot : asciiLower '.' = '.' := by decide
+    cases oc with
+    | none =>
+      dsimp only at hs
+      simp only [Follow.notCharCI, decide_eq_true_eq] at h
+      rcases hs with e | e
+      · rw [e]; rfl
+      · exact key '.' e (by rw [dot]; exact fun e' => h e'.symm)
+    | some c =>
+      dsimp only at hs
+      simp only [Follow.notCharCI, Bool.and_eq_true, decide_eq_true_eq] at h
+      rcases hs with e | e
+      · exact key c e h.2
+      · exact key '.' e (by rw [dot]; exact fun e' => h.1 e'.symm)
+  | unknown => rw [hf] at h; simp [Follow.notCharCI] at h
+
+theorem danger_sound (cu : Culture) (used : Nat) (get : Getter) (ss : List Step) (hv : ∀ s ∈ ss, ValOK get s) (ds : List Char)
+    (h : ds.all (follow ss).notCharCI = true) : tailSafe ds (outSteps cu used get ss ++ []) = true := by
+  apply tailSafe_of_forall
+  intro x hx
+  rw [List.all_eq_true] at h
+  exact notCharCI_sound cu used get ss hv x (h x hx)
+
 /-- the syntactic criterion implies the per-step conditions -/
-theorem delimited_stepsOK (get : Getter) : ∀ (ss : List Step) (safe : Bool) (buf : Text),
-    Delimited safe ss = true → (safe = true → NoDotEnd buf) → (∀ s ∈ ss, ValOK get s) → StepsOK get buf ss [] := by
+theorem delimited_stepsOK (cu : Culture) (used : Nat) (get : Getter) : ∀ (ss : List Step) (safe : Bool) (buf : Text),
+    Delimited cu used safe ss = true → (safe = true → NoDotEnd buf) → (∀ s ∈ ss, ValOK get s) → StepsOK cu used get buf ss [] := by
   intro ss
   induction ss with
   | nil => intro _ _ _ _ _; trivial
@@ -598,39 +702,47 @@ theorem delimited_stepsOK (get : Getter) : ∀ (ss : List Step) (safe : Bool) (b
         simp only [delimStep, Bool.or_eq_true, decide_eq_true_eq] at hd1
         rcases hd1 with h | h
         · left; exact h
-        · right; exact nonDigit_sound get ss hvss h
+        · right; exact nonDigit_sound cu used get ss hvss h
       | frac count scale fixed =>
         refine ⟨hvs, ?_⟩
         intro hf; subst hf
         simp only [delimStep, Bool.false_or, Bool.and_eq_true] at hd1
-        exact ⟨nonDigit_sound get ss hvss hd1.1, fun _ => hb hd1.2⟩
+        exact ⟨nonDigit_sound cu used get ss hvss hd1.1, fun _ => hb hd1.2⟩
       | dotFrac count scale comma =>
         simp only [delimStep, Bool.and_eq_true, Bool.or_eq_true, Bool.not_eq_true'] at hd1
         obtain ⟨⟨h1, h2⟩, h3⟩ := hd1
-        refine ⟨hvs, nonDigit_sound get ss hvss h1, fun _ => ⟨notChar_sound get ss hvss '.' h2, ?_⟩⟩
+        refine ⟨hvs, nonDigit_sound cu used get ss hvss h1, fun _ => ⟨notChar_sound cu used get ss hvss '.' h2, ?_⟩⟩
         intro hc
         rcases h3 with h3 | h3
         · rw [hc] at h3; cases h3
-        · exact notChar_sound get ss hvss ',' h3
+        · exact notChar_sound cu used get ss hvss ',' h3
       | signNegativeOnly =>
         simp only [delimStep, Bool.and_eq_true] at hd1
-        exact ⟨hvs, fun _ => ⟨notChar_sound get ss hvss '-' hd1.1, notChar_sound get ss hvss '+' hd1.2⟩⟩
-      | amPm _ => simp [delimStep] at hd1
-      | monthText _ => simp [delimStep] at hd1
-      | dayText _ => simp [delimStep] at hd1
-      | era => simp [delimStep] at hd1
-      | calendar => simp [delimStep] at hd1
-    · exact ih (lastSafe safe s) (buf ++ outStep get s) hd2
-        (fun hs => lastSafe_sound get safe buf s hvs hb hs) hvss
+        exact ⟨hvs, fun _ => ⟨notChar_sound cu used get ss hvss '-' hd1.1, notChar_sound cu used get ss hvss '+' hd1.2⟩⟩
+      | amPm count =>
+        simp only [delimStep, textStepOK, Bool.and_eq_true] at hd1
+        exact ⟨hvs, hd1.1, danger_sound cu used get ss hvss _ hd1.2⟩
+      | monthText count =>
+        simp only [delimStep, textStepOK, Bool.and_eq_true] at hd1
+        exact ⟨hvs, hd1.1, danger_sound cu used get ss hvss _ hd1.2⟩
+      | dayText count =>
+        simp only [delimStep, textStepOK, Bool.and_eq_true] at hd1
+        exact ⟨hvs, hd1.1, danger_sound cu used get ss hvss _ hd1.2⟩
+      | era =>
+        simp only [delimStep, textStepOK, Bool.and_eq_true] at hd1
+        exact ⟨hvs, hd1.1, danger_sound cu used get ss hvss _ hd1.2⟩
+      | calendar => trivial
+    · exact ih (lastSafe safe s) (buf ++ outStep cu used get s) hd2
+        (fun hs => lastSafe_sound cu used get safe buf s hvs hb hs) hvss
 
 /-- **stepped_roundtrip**: for every culture record, every `Delimited` list of steps and every value whose fields
     the steps can hold (`ValOK`), the text the format actions write is read back by the parse actions, consuming
     all of it and leaving in every slot that a step sets what the value's accessor returned (`setSteps`). -/
 theorem stepped_roundtrip (cu : Culture) (used : Nat) (get : Getter) (ss : List Step) (b : Bucket)
-    (hd : Delimited true ss = true) (hv : ∀ s ∈ ss, ValOK get s) :
-    formatSteps cu used get ss [] = .ok (outSteps get ss) ∧
-    parseSteps cu ss (outSteps get ss) b = .ok (some (setSteps get b ss, [])) := by
-  have h := delimited_stepsOK get ss true [] hd (fun _ => by simp [NoDotEnd]) hv
+    (hd : Delimited cu used true ss = true) (hv : ∀ s ∈ ss, ValOK get s) :
+    formatSteps cu used get ss [] = .ok (outSteps cu used get ss) ∧
+    parseSteps cu ss (outSteps cu used get ss) b = .ok (some (setSteps cu get b ss, [])) := by
+  have h := delimited_stepsOK cu used get ss true [] hd (fun _ => by simp [NoDotEnd]) hv
   have := steps_roundtrip cu used get ss [] [] b h
   simpa using this
 
@@ -639,15 +751,15 @@ theorem stepped_roundtrip (cu : Culture) (used : Nat) (get : Getter) (ss : List 
 /-- "the pattern's fields can represent the value exactly": the value is determined by the projection of its
     fields onto the slots the pattern sets (the other slots keeping the template's values) -/
 def Representable (ty : PType) (c : Compiled) (get : Getter) (v : List Int) : Prop :=
-  bucketValue ty c.used (setSteps get (bucket0 ty) c.steps) = .ok (some v)
+  bucketValue ty c.used (setSteps c.cu get (bucket0 ty) c.steps) = .ok (some v)
 
 /-- **pattern_roundtrip**: a stepped pattern of any of the three types, `Delimited`, on a value its fields can hold
     and represent: `format` writes `outSteps`, and `parse` of that text succeeds with the value -/
 theorem pattern_roundtrip (ty : PType) (c : Compiled) (get : Getter) (v : List Int)
-    (hd : Delimited true c.steps = true) (hv : ∀ s ∈ c.steps, ValOK get s) (hr : Representable ty c get v)
-    (hne : outSteps get c.steps ≠ []) :
-    fmtCompiled c get [] = .ok (outSteps get c.steps) ∧
-    parseCompiled ty c (outSteps get c.steps) = .ok (some v) := by
+    (hd : Delimited c.cu c.used true c.steps = true) (hv : ∀ s ∈ c.steps, ValOK get s) (hr : Representable ty c get v)
+    (hne : outSteps c.cu c.used get c.steps ≠ []) :
+    fmtCompiled c get [] = .ok (outSteps c.cu c.used get c.steps) ∧
+    parseCompiled ty c (outSteps c.cu c.used get c.steps) = .ok (some v) := by
   obtain ⟨f, p⟩ := stepped_roundtrip c.cu c.used get c.steps (bucket0 ty) hd hv
   refine ⟨f, ?_⟩
   unfold parseCompiled
@@ -673,7 +785,7 @@ theorem isoTime_compiles :
     compiledSteps (compileCustom .time invariantCulture "HH':'mm':'ss;FFFFFFFFF".toList) = some (60, isoTimeSteps) := by
   decide +kernel
 
-theorem isoTime_delimited : Delimited true isoTimeSteps = true := by decide
+theorem isoTime_delimited : Delimited invariantCulture 60 true isoTimeSteps = true := by decide
 
 def isoDateSteps : List Step :=
   [.num .year .year 4 4 (-9999) 9999, .lit ['-'], .num .monthNum .monthNum 2 2 1 99, .lit ['-'],
@@ -683,7 +795,7 @@ theorem isoDate_compiles :
     compiledSteps (compileCustom .date invariantCulture "uuuu'-'MM'-'dd".toList) = some (5248, isoDateSteps) := by
   decide +kernel
 
-theorem isoDate_delimited : Delimited true isoDateSteps = true := by decide
+theorem isoDate_delimited : Delimited invariantCulture 5248 true isoDateSteps = true := by decide
 
 def offsetLongSteps : List Step :=
   [.signRequired, .num .hours24 .hours24 2 2 0 23, .lit [':'], .num .minutes .minutes 2 2 0 59, .lit [':'],
@@ -693,21 +805,21 @@ theorem offsetLong_compiles :
     compiledSteps (compileCustom .offset invariantCulture "+HH:mm:ss".toList) = some (29, offsetLongSteps) := by
   decide +kernel
 
-theorem offsetLong_delimited : Delimited true offsetLongSteps = true := by decide
+theorem offsetLong_delimited : Delimited invariantCulture 29 true offsetLongSteps = true := by decide
 
 /-- a custom, variable-width pattern is covered as well: `H:m:s.FFF` is `Delimited`, `Hm` is not -/
-example : (compiledSteps (compileCustom .time invariantCulture "H:m:s.FFF".toList)).map (fun p => Delimited true p.2) = some true := by
+example : (compiledSteps (compileCustom .time invariantCulture "H:m:s.FFF".toList)).map (fun p => Delimited invariantCulture p.1 true p.2) = some true := by
   decide +kernel
-example : (compiledSteps (compileCustom .time invariantCulture "Hm".toList)).map (fun p => Delimited true p.2) = some false := by
+example : (compiledSteps (compileCustom .time invariantCulture "Hm".toList)).map (fun p => Delimited invariantCulture p.1 true p.2) = some false := by
   decide +kernel
-example : (compiledSteps (compileCustom .time invariantCulture "ss'.'FF".toList)).map (fun p => Delimited true p.2) = some false := by
+example : (compiledSteps (compileCustom .time invariantCulture "ss'.'FF".toList)).map (fun p => Delimited invariantCulture p.1 true p.2) = some false := by
   decide +kernel
-example : (compiledSteps (compileCustom .offset invariantCulture "-HH:mm".toList)).map (fun p => Delimited true p.2) = some true := by
+example : (compiledSteps (compileCustom .offset invariantCulture "-HH:mm".toList)).map (fun p => Delimited invariantCulture p.1 true p.2) = some true := by
   decide +kernel
 
 /-- LocalTimePattern.extended_iso as an instance of the generic theorem: every nanosecond of the day -/
 theorem isoTime_generic_roundtrip (nod : Int) (h0 : 0 ≤ nod) (h1 : nod < 86400000000000) :
-    parseCompiled .time ⟨invariantCulture, 60, isoTimeSteps⟩ (outSteps (timeGetter nod) isoTimeSteps) = .ok (some [nod]) := by
+    parseCompiled .time ⟨invariantCulture, 60, isoTimeSteps⟩ (outSteps invariantCulture 60 (timeGetter nod) isoTimeSteps) = .ok (some [nod]) := by
   obtain ⟨e1, e2, e3, e4⟩ := time_accessors nod h0 h1
   have hv : ∀ s ∈ isoTimeSteps, ValOK (timeGetter nod) s := by
     intro s hs
@@ -726,7 +838,7 @@ theorem isoTime_generic_roundtrip (nod : Int) (h0 : 0 ≤ nod) (h1 : nod < 86400
   have hr : Representable .time ⟨invariantCulture, 60, isoTimeSteps⟩ (timeGetter nod) [nod] := by
     have hu : (60 : Nat) &&& F.allTimeExceptFraction = (F.hours24 ||| F.minutes ||| F.seconds) := by decide
     -- the bucket after the parse actions, slot by slot
-    generalize hb : setSteps (timeGetter nod) (bucket0 .time) isoTimeSteps = b'
+    generalize hb : setSteps invariantCulture (timeGetter nod) (bucket0 .time) isoTimeSteps = b'
     have bH : b' .hours24 = ltHour nod := by
       rw [← hb]; simp only [isoTimeSteps, setSteps, setStep]; split <;> simp [Bucket.set, timeGetter]
     have bM : b' .minutes = ltMinute nod := by
@@ -746,7 +858,7 @@ theorem isoTime_generic_roundtrip (nod : Int) (h0 : 0 ≤ nod) (h1 : nod < 86400
     unfold Representable bucketValue
     simp only [hb, timeValue, hu, if_true, bH, bM, bS, bF, Option.map]
     rw [e1, e2, e3, e4, time_recompose]
-  have hne : outSteps (timeGetter nod) isoTimeSteps ≠ [] := by
+  have hne : outSteps invariantCulture 60 (timeGetter nod) isoTimeSteps ≠ [] := by
     simp only [isoTimeSteps, outSteps, outStep]
     obtain ⟨d, _, hne⟩ := numOut_last 2 (timeGetter nod .hours24)
     intro h
